@@ -742,6 +742,7 @@ class SsbGraphMinimizer:
                         if (
                             v["op"].id == 0
                             or in_edges[0]["loop"]
+                            or self._is_call_edge(g, in_edges[0])
                             or (
                                 isinstance(v["op"], SsbLabel)
                                 and (
@@ -976,6 +977,14 @@ class SsbGraphMinimizer:
         if e["switch_ops"] is not None:
             for op in e["switch_ops"]:
                 e["label"] += f"\n[{op.switch_index}:{op.index}:{op.op.op_code.name}]"
+
+    @staticmethod
+    def _is_call_edge(g: Graph, e: Edge) -> bool:
+        """Whether e leads from a call to the label it calls (that label has to be written)."""
+        op = e.source_vertex["op"]
+        if not (isinstance(op, SsbLabelJump) and isinstance(op.get_marker(), CallJump)):
+            return False
+        return find_lowest_and_highest_out_edge(g, e.source_vertex, "flow_level")[1] == e
 
     def get_graphs(self) -> list[Graph]:
         return self._graphs
